@@ -516,7 +516,7 @@ func coreForms() []ovForm {
 var ovChainVals = map[SK][]float64{
 	I32:  {0, 1, -1, 7, -7, 9, 2147483647, -2147483648},
 	U32:  {0, 1, 7, 9, 2147483648, 4294967295},
-	F32:  {0, 1, -1, 2.5, -0.5, 7, 16777216, 3e9},
+	F32:  {0, 1, -1, 2.5, -0.5, 7, 16777216, 3e9, 0.1},
 	Bool: {0, 1, 2.5, -1},
 }
 
@@ -756,14 +756,17 @@ func F6oSpell() []*OvProg {
 				continue
 			}
 			for vi, b := range vals[t.S] {
-				for _, where := range []string{"default", "operand"} {
+				for _, where := range []string{"default", "operand", "second-entry-point"} {
+					if where == "second-entry-point" && s.name != "bare" {
+						continue
+					}
 					p := &OvProg{Part: "spell"}
 					var y Expr
 					op := "*"
 					if t.S == Bool {
 						op = "!="
 					}
-					if where == "default" {
+					if where != "operand" {
 						p.Ovs = []OvDecl{{Name: "X", Ty: t, ID: -1, Init: s.mk(t, b)}}
 						var two Expr = ovLit(t, 2, true)
 						if t.S == F32 {
@@ -785,7 +788,14 @@ func F6oSpell() []*OvProg {
 						&Assign{LHS: outAt(TU32, 1), Op: "=", RHS: toU32Expr(L("Y", t))},
 						&Assign{LHS: outAt(TU32, 2), Op: "=", RHS: LitU(42)},
 					}
-					ovFrame(p, TU32, 3, nil, nil, body)
+					ovFrame(p, TU32, 4, nil, nil, body)
+					if where == "second-entry-point" {
+						// a second compute entry point (declared after main) that uses both overrides
+						p.Mod.Funcs = append(p.Mod.Funcs, &Func{Name: "aux", Stage: "compute", WG: [3]int{1, 0, 0}, Body: []Stmt{
+							&Assign{LHS: outAt(TU32, 3), Op: "=", RHS: toU32Expr(L("Y", t))},
+							&Assign{LHS: outAt(TU32, 2), Op: "=", RHS: toU32Expr(L("X", t))},
+						}})
+					}
 					p.Class = fmt.Sprintf("%s/%s/%s", where, s.name, t)
 					p.Sig = fmt.Sprintf("F6o-spell/%s/%s/%s/v%d", where, s.name, t, vi)
 					p.Maps = []OvMap{{Label: "absent", Vals: map[string]float64{}}}
